@@ -1126,3 +1126,26 @@ Print Assumptions keep_sorted_lex_desc_ok_iff.
 Print Assumptions keep_sorted_lex_asc_diag.
 Print Assumptions keep_sorted_lex_desc_diag.
 Print Assumptions keep_sorted_lex_outcomes.
+
+(* ---------- round 4: blank lines and line-pattern ---------- *)
+(* blank lines never count: a line of whitespace only passes every pattern *)
+Lemma blank_line_passes o pat l : all_ws l -> lp_passes o pat l.
+Proof. intros H. left. apply trim_nil_iff. exact H. Qed.
+
+(* a failing line is never blank *)
+Lemma failing_line_not_blank o pat l : lp_fails o pat l -> ~ all_ws l.
+Proof. intros [H _] Hw. apply H. apply trim_nil_iff. exact Hw. Qed.
+
+(* passing and failing exclude each other *)
+Lemma lp_passes_fails_exclusive o pat l : lp_passes o pat l -> lp_fails o pat l -> False.
+Proof. intros [Hb|[m Hm]] [Hn Hf]; [exact (Hn Hb)|rewrite Hm in Hf; discriminate]. Qed.
+
+(* inserting a blank line anywhere does not change whether every line passes *)
+Lemma all_pass_blank_insert o pat pre w post :
+  all_ws w ->
+  (Forall (lp_passes o pat) (pre ++ w :: post) <-> Forall (lp_passes o pat) (pre ++ post)).
+Proof.
+  intros Hw. rewrite !Forall_app. split.
+  - intros [Hp Hq]. split; [exact Hp|]. inversion Hq; assumption.
+  - intros [Hp Hq]. split; [exact Hp|]. constructor; [apply blank_line_passes; exact Hw|exact Hq].
+Qed.
